@@ -1757,6 +1757,9 @@ class UserSpaceImpl(*_user_space_impl_base):
                 if name in self.own_refs:
                     self.model.refmgr.change_ref(self, name, value, refmode)
                 elif self.refs[name].parent is self.model:
+                    # The new reference shadows the model-level one.
+                    # Clear the values that read it by attribute access.
+                    self.model.clear_attr_referrers(self.refs[name])
                     self.model.refmgr.new_ref(self, name, value, refmode)
                 else:
                     raise RuntimeError("must not happen")
